@@ -61,7 +61,9 @@ def configs(tier):
             for T in (1, 2):
                 out.append({'kind': 'channels', 'nsw': nsw, 'nc': nc, 'T': T, 'rate': [1000.0, 30000.0, 2500.0][(nsw + nc + T) % 3]})
     for n in ((1, 2, 3) if quick else (1, 2, 3, 4)):
-        for variant in (0, 1):
+        for variant in (0, 1, 2):
+            if variant == 2 and n > 2:
+                continue
             out.append({'kind': 'depths', 'n': n, 'variant': variant})
     return out
 
@@ -83,6 +85,8 @@ def _feat(variant, n, ncl):
     f = rng.randint(-2, 4, size=(n, ncl, 2)).astype(np.float64)
     if variant == 1 and n >= 1:
         f[0, :, 0] = [-1.0, 0.0][:ncl] + [0.0] * (ncl - 2)   # positive part vanishes -> NaN depth
+    if variant == 2:
+        f[:, :, 0] = np.abs(f[:, :, 0]) + 1.0                 # every spike has a finite depth (also a lone spike)
     return f
 
 
@@ -253,6 +257,9 @@ def run_config(cfg, e):
                         for c in range(nc):
                             yk = ite(sand(st[i] == t, cols[t][k] == c), ypos[c], yk)
                     want = want + yk * (w[k] / tot)
+                if not isinstance(d[i], core.Sym) and d[i] != d[i]:
+                    obl.append((False, 'depth of spike %d is NaN although it has positive features' % i))
+                    continue
                 diff = d[i] - want
                 obl.append((sand(diff <= 1e-9, diff >= -1e-9), 'depth of spike %d' % i))
             e.prove_all(obl)
@@ -367,7 +374,7 @@ def replay(case):
                     return 'depth of spike %d is %s, expected NaN' % (i, d[i])
                 continue
             want = (ypos[cols[case['st'][i]]] * w).sum() / w.sum()
-            if abs(d[i] - want) > 1e-9:
+            if np.isnan(d[i]) or abs(d[i] - want) > 1e-9:
                 return 'depth of spike %d is %s, expected %s' % (i, d[i], want)
         return None
     raise ValueError(kind)
